@@ -692,8 +692,6 @@ def generate(rng, tier):
     light += ab_light
     for j, c in enumerate(ab_heavy):
         heavy.insert(min(len(heavy), 5 + 4 * j), c)
-    # 10. key / category texts with braces, percent signs, non-ASCII x failing storage calls (drawn after the streams above)
-    light += naming_cases(rng, quick)
     # 9. very long backlogs behind a stalled storage (implementation only): the flusher picked up the first requests and
     #    sits inside a storage call while more than 10^4 (thorough: also 2^14, 2^15) requests arrive; every one of them has
     #    to return without the flusher moving ("callers never wait for the wrapped storage")
@@ -702,6 +700,8 @@ def generate(rng, tier):
         c["model"] = False
         c["label"] = "long-history-stalled-storage-huge"
         heavy.insert(min(len(heavy), 2 + 7 * j), c)
+    # 10. key / category texts with braces, percent signs, non-ASCII x failing storage calls (drawn after the streams above)
+    light += naming_cases(rng, quick)
     # spread the heavy cases evenly (the driver is sharded over contiguous chunks), the explorations - heaviest - first
     expl = [c for c in heavy if c["sched"]["kind"] == "explore"]
     expl.sort(key=lambda c: -c["sched"]["max_runs"] * {"atomic": 1, "line": 2, "opcode": 2}[c["sched"]["gran"]])
